@@ -21,6 +21,25 @@ PROPS = {
         level_note="Trusted: Lean kernel; go/ast translator for the field table; correspondence harness. Modelled by hand: warcfields.go, normalizeName, "
                    "http.CanonicalHeaderKey, strings.ToLower (as far as comparison with ASCII keys goes), strconv.ParseInt base 10. Time formatting is outside the model.",
     ),
+    "C14": dict(
+        title="The spill buffer behaves exactly like an in-memory buffer",
+        lean_modules=["Gowarc.Props.C14"],
+        n_quick=6000, n_thorough=40000,
+        required_theorems=["C14_refines", "C14_step", "C14_no_panic", "C14_slice_read", "C14_eof_sound"],
+        model_assumptions=[
+            "the OS file API (WriteAt/ReadAt/CreateTemp on the temp file) behaves as an append-only byte array",
+            "WithMaxTotalBytes, WriteTo and read-only mode are outside the property and outside the model",
+            "sources passed to ReadFrom follow the io.Reader contract (never (0, nil) forever)",
+            "slice line reads (Slice.ReadBytes) are covered by the correspondence only (no refinement theorem yet)",
+        ],
+        design_ref="DESIGN.md section 5, C14",
+        level_text="Refinement theorem C14_refines: for every threshold >= 1 and every sequence of Write/ReadFrom/Read/Peek/ReadBytes/Seek(0)/Size "
+                   "the model of internal/diskbuffer returns exactly what a one-list byte buffer returns (bytes, counts, end-of-data), with invariant "
+                   "'memory <= threshold and temp file exists iff memory is full'; slice read/peek/size theorems; kernel-checked. Model tied to the code by "
+                   "step-wise correspondence on seeded sequences (exhaustive small scope in the thorough tier) including temp-file existence after every step",
+        level_note="Trusted: Lean kernel, correspondence harness. Modelled by hand: diskbuffer.go, membuffer.go, filebuffer.go, slice.go. "
+                   "Assumed: OS file semantics, well-behaved io.Reader sources.",
+    ),
 }
 
 
